@@ -345,7 +345,7 @@ def _run_fresh(c):
     else:
         w = pickle.loads(pickle.dumps(DigitalWaveform.from_lines(np.zeros((4, 2), np.uint8)), c["proto"]))
     before = w.data.tolist()
-    ok = not np.shares_memory(w._data, port)
+    ok = not np.shares_memory(w._data, port) and port.tolist() == [1, 2, 3, 250] and port.flags.writeable
     try:
         w.capacity = w.capacity + 3
         ok = ok and w.data.tolist() == before
